@@ -818,6 +818,7 @@ func (g *generator) enterNextFinallyFrame() (canContinue bool) {
 			tf.catchPos = tryPanicMarker
 			tf.finallyPos = -1
 			tf.finallyRet = -2 // -1 would cause it to continue after leaveFinally
+			tf.retVal = g.returning
 			return true
 		}
 		vm.popTryFrame()
@@ -825,8 +826,23 @@ func (g *generator) enterNextFinallyFrame() (canContinue bool) {
 	return
 }
 
+// pendingReturn returns the value of the innermost return() completion that is still in flight: that of the innermost
+// finally frame entered by enterNextFinallyFrame() which is still on the try stack, or nil. A return completion is
+// dropped when its finally block completes abruptly in another way (throw, break, continue, another return()); an
+// outer return completion whose finally block contains that code is then the pending one again.
+func (g *generator) pendingReturn() Value {
+	ts := g.vm.tryStack
+	for i := len(ts) - 1; i >= int(g.tryStackLen) && i >= 0; i-- {
+		if ts[i].finallyRet == -2 {
+			return ts[i].retVal
+		}
+	}
+	return nil
+}
+
 func (g *generator) step() (res Value, resultType resultType, ex *Exception) {
 	vm := g.vm
+	g.returning = g.pendingReturn()
 resumed:
 	if g.returning == nil {
 		for {
@@ -852,7 +868,7 @@ resumed:
 					// A throw completion from a finally block replaces the pending return completion. The generator
 					// still has enclosing try statements of its own: the exception is theirs to handle (their
 					// catch / finally blocks must run) and execution continues as an ordinary resumption.
-					g.returning = nil
+					g.returning = g.pendingReturn()
 					if ex = vm.handleThrow(ex); ex == nil {
 						goto resumed
 					}
@@ -940,7 +956,7 @@ func (g *generator) nextThrow(v interface{}) (Value, resultType, *Exception) {
 		// block entered by return(). The throw completion replaces the pending return completion and is handled
 		// by the remaining try statements of the generator body, if any.
 		g.vm.popTryFrame()
-		g.returning = nil
+		g.returning = g.pendingReturn()
 		ex = g.vm.handleThrow(ex)
 	}
 	if ex != nil {
